@@ -103,7 +103,7 @@ class C07(Engine):
             f = P.files[fid]
             if not f["name"].endswith(".c"):
                 continue
-            for k, fop in enumerate(("label_last", "control_last", "label_body", "comment_run", "label_line")):
+            for k, fop in enumerate(("label_last", "control_last", "label_body", "comment_run", "label_line", "nest_body", "nest_body")):
                 r = core.derive_rng("c07.struct", self.seed, idx)
                 c2, op = gen_violating(r, f["name"], f["content"], force_op=fop)
                 if c2 != f["content"]:
